@@ -18,6 +18,7 @@ func init() {
 		Rules: []Rule{
 			{ID: "C15.1", Desc: "write protocol: temp, write, sync, close, rename", Run: ruleC15_1, MinSites: 1},
 			{ID: "C15.2", Desc: "read path: one open, one full read", Run: ruleC15_2, MinSites: 1},
+			{ID: "C15.3", Desc: "what is written to the file is private to the Set that wrote it (the encryptor hands out a buffer of its own per call)", Run: func(c *Ctx) { ruleC17_3(c); renameRule(c, "C17.3", "C15.3") }, MinSites: 1},
 		},
 	})
 }
@@ -152,6 +153,25 @@ func ruleC15_1(c *Ctx) {
 					}
 				}
 			}
+			// the temporary file's own name is short: it may live in the entry's directory (filepath.Dir of the entry name) but
+			// must not extend the entry's file name, which may already be as long as a file name can be
+			extends := false
+			c.P.TraceBack(name, TraceOpts{ThroughOps: true, ThroughExtern: true, NoParams: true, NoHeapFields: true}, func(x ssa.Value, _ []int) bool {
+				if call, ok := x.(*ssa.Call); ok {
+					if callIsPkgFunc(&call.Call, "path/filepath", "Dir") || callIsPkgFunc(&call.Call, "path", "Dir") || callIsPkgFunc(&call.Call, "path/filepath", "Split") {
+						return false // only the directory part is used
+					}
+					if c.An.IsFileNamerCall(call) {
+						extends = true
+						return false
+					}
+				}
+				return true
+			})
+			if extends {
+				c.Fail("C15.1", "temp-name-short fn="+c.P.ShortName(fn), "the temporary file's name does not extend the entry's file name", where+": the temporary name is built from the entry's whole file name plus a suffix; for keys whose encoded name is within a suffix length of the 255-byte limit (about 182..191 key bytes) the temporary file cannot be created and Set fails", where)
+				return
+			}
 			// the temporary name must be unique per writer: it depends on a counter, random source or clock
 			uniq := c.An.dependsOnCall(name, func(x *ssa.Call) bool {
 				sc := x.Call.StaticCallee()
@@ -219,6 +239,84 @@ func ruleC15_1(c *Ctx) {
 			}, isRen)
 			if !r.OK {
 				c.Fail("C15.1", key, desc, where+": a `return nil` is reachable without the rename", where)
+				return
+			}
+			// no failure after the temporary file exists leaves it behind: every return with a non-nil error that is
+			// reachable from the create call has passed a removal of the temporary name (directly or in a cleanup
+			// helper/closure), except the return of the create call's own error
+			createErr := ssa.Value(nil)
+			if v, ok := in.(ssa.Value); ok && v.Referrers() != nil {
+				for _, r := range *v.Referrers() {
+					if ex, ok := r.(*ssa.Extract); ok && ex.Index == 1 {
+						createErr = ex
+					}
+				}
+			}
+			isRemove := func(cc *ssa.CallCommon) bool {
+				return cc != nil && (callIsMethod(cc, "os", "Root", "Remove") || callIsPkgFunc(cc, "os", "Remove"))
+			}
+			cleans := func(i2 ssa.Instruction) bool {
+				cc := callOf(i2)
+				if cc == nil {
+					return false
+				}
+				if _, isDefer := i2.(*ssa.Defer); isDefer {
+					return false
+				}
+				if isRemove(cc) {
+					return true
+				}
+				if ci, ok := i2.(ssa.CallInstruction); ok {
+					for _, cal := range c.P.Callees(ci) {
+						if c.P.IsRepoFunc(cal) && callsWhere(cal, isRemove) {
+							return true
+						}
+					}
+				}
+				return false
+			}
+			leak := ""
+			seenB := map[*ssa.BasicBlock]bool{}
+			var walk func(b *ssa.BasicBlock, from int)
+			walk = func(b *ssa.BasicBlock, from int) {
+				if leak != "" {
+					return
+				}
+				if from == 0 {
+					if seenB[b] {
+						return
+					}
+					seenB[b] = true
+				}
+				for _, i2 := range b.Instrs[from:] {
+					if cleans(i2) || i2 == ren && false {
+						return
+					}
+					if rt, ok := i2.(*ssa.Return); ok && len(rt.Results) == 1 {
+						ev := c.An.RetVal(rt, 0)
+						if isNilConst(ev) {
+							return // success
+						}
+						if createErr != nil && c.An.sameCanon(ev, createErr) {
+							return // the create itself failed: nothing to remove
+						}
+						leak = c.P.InstrPos(rt)
+						return
+					}
+				}
+				for _, sx := range b.Succs {
+					walk(sx, 0)
+				}
+			}
+			start := 0
+			for i, i2 := range in.Block().Instrs {
+				if i2 == in {
+					start = i + 1
+				}
+			}
+			walk(in.Block(), start)
+			if leak != "" {
+				c.Fail("C15.1", "temp-removed-on-failure fn="+c.P.ShortName(fn), "a failed write leaves no temporary file behind", where+": the return at "+leak+" hands back an error while the temporary file still exists; every request that fails there (e.g. the rename onto a name that is a directory) adds one uniquely named file, which the key listing skips and nothing ever removes", where)
 				return
 			}
 			c.Pass("C15.1", key, desc, where, "rename@"+c.P.InstrPos(ren))
